@@ -160,8 +160,10 @@ def run(prop, tier_, sample=None, jobs=12, newino=20):
         # directory outside the root at the same descriptor numbers (caller context; the outcome must not depend on it)
         thr = ci % 5 == 4
         c["in_thread"] = thr
+        # ... and every seventh case with a root the caller opened O_RDONLY|O_DIRECTORY itself (not an O_PATH descriptor)
+        rdo = ci % 7 == 3
         for bname, feat in FEATS:
-            pv_cases.append(dict(id="%d-%s" % (ci, bname), tree=nodes, feat=feat, trace=False, in_thread=thr, calls=[dict(lib_call(c), api=api)]))
+            pv_cases.append(dict(id="%d-%s" % (ci, bname), tree=nodes, feat=feat, trace=False, in_thread=thr, root_rdonly=rdo, calls=[dict(lib_call(c), api=api)]))
             index.append((ci, bname))
         k = kref_call(c)
         if k is not None:
